@@ -7,9 +7,8 @@ open IrVerif.Journal
 #print axioms C20_transparent
 #print axioms C20_transparent_from_start
 #print axioms C20_transparent_needs_DetailsOk
+#print axioms C20_transparent_needs_DetailsPure
 #print axioms C20_transparent_needs_NoReentry
-#print axioms C20_transparent_needs_InitNone
+#print axioms C20_transparent_needs_ProcNone
 #print axioms C20_entries
 #print axioms C20_entries_active
-#print axioms C20_no_strong_ref
-#print axioms C20_dropped_objects_die
